@@ -332,6 +332,9 @@ def check(ctx):
                 got = {k: v for k, v in log[0]["kwargs"].items()}
                 withm = dict(fwd)
                 withm["method"] = 99
+                if not all(isinstance(v, int) for v in got.values()):
+                    ctx.fail("oracle", "options:%s:unexpected-option" % fnl, {"options": fwd}, {k: repr(v)[:60] for k, v in got.items()},
+                             "exactly the caller's options, no internal key")
                 cases.append("opts_eqb (fwd_kwargs %s) %s" % (copts(withm), copts(got)) if all(
                     isinstance(v, int) for v in got.values()) else "false")
                 meta.append({"functional": fnl, "options": fwd, "received": {k: repr(v) for k, v in got.items()}})
@@ -352,6 +355,10 @@ def check(ctx):
                          "the backward quadrature calls the configured method")
                 continue
             withm = dict(fwd)
+            if not all(isinstance(v, int) for v in seen[-1].values()):
+                ctx.fail("oracle", "options:quad:backward:unexpected-option", {"fwd": fwd, "bck": bck},
+                         {k: repr(v)[:60] for k, v in seen[-1].items()}, "exactly the caller's options (forward updated by bck_options), no internal key")
+                continue
             cases.append("opts_eqb (fwd_kwargs (bck_config %s %s)) %s" % (copts(withm), copts(bck), copts(seen[-1])))
             meta.append({"functional": "quad-backward", "fwd": fwd, "bck": bck, "received": seen[-1]})
             ctx.count(("bckopts", tuple(fwd.items()), tuple(bck.items())))
@@ -499,8 +506,14 @@ def gradient_oracle(ctx):
         fo = lambda t, y, a, b: -a * y + b
         tight = dict(rtol=1e-10, atol=1e-12)
         ref = _grads(lambda: solve_ivp(fo, ts, y00, params=(a, b), method="rk45", bck_options=tight, **tight), [a, b, y00])
-        got = _grads(lambda: solve_ivp(fo, ts, y00, params=(a, b), method=custom_ivp, bck_options=dict(method="rk45", **tight)),
-                     [a, b, y00])
+        try:
+            got = _grads(lambda: solve_ivp(fo, ts, y00, params=(a, b), method=custom_ivp, bck_options=dict(method="rk45", **tight)),
+                         [a, b, y00])
+        except Exception as e:
+            # the forward callable is for the forward pass only: bck_options name the solver of the adjoint system
+            ctx.fail("oracle", "gradindep:solve_ivp:backward-options-ignored", {"rep": rep, "method": "<closed-form callable>",
+                     "bck_options": "{'method': 'rk45', ...}"}, repr(e)[:200], "the adjoint system is integrated with bck_options['method']")
+            continue
         _cmp(ctx, "gradindep:solve_ivp", {"rep": rep}, ref, got, 1e-5, 1e-7)
         ctx.count(("gi-ivp", rep))
 
